@@ -5,7 +5,10 @@ import (
 	"context"
 	"errors"
 	"fmt"
+	"os"
+	"runtime"
 	"sort"
+	"sync"
 
 	"verifharness/bridge"
 
@@ -110,10 +113,30 @@ func Guard(f func() string) (res string) {
 	defer func() {
 		if r := recover(); r != nil {
 			res = "panic"
+			if panicLog {
+				msg := fmt.Sprint(r)
+				if len(msg) > 60 {
+					msg = msg[:60]
+				}
+				panicMu.Lock()
+				if !panicSeen[msg] && len(panicSeen) < 40 {
+					panicSeen[msg] = true
+					buf := make([]byte, 2048)
+					n := runtime.Stack(buf, false)
+					fmt.Fprintf(os.Stderr, "PANIC: %s\n%s\n", msg, buf[:n])
+				}
+				panicMu.Unlock()
+			}
 		}
 	}()
 	return f()
 }
+
+var (
+	panicLog  = os.Getenv("VERIF_PANICLOG") != ""
+	panicMu   sync.Mutex
+	panicSeen = map[string]bool{}
+)
 
 // IterItems lists path/value pairs through the real Iterate.
 func IterItems(t util.MerklePatriciaTrieI) (items []bridge.Item, res string) {
